@@ -6,15 +6,20 @@
 //! i.e. every tree shape.  After each action priorities are re-spaced to their ranks (order preserved).
 //!
 //! C03 judges the sequence semantics (split/merge/insert/remove/first/last/collect/size, aggregates,
-//! lazy modifications applied exactly once and in order).  C16 judges heap order in every state of the
-//! same exploration, plus a directed (not exhaustive) menu of long deterministic histories through the
-//! real priority generator for the height bound: single-treap orders, block concatenation, strided
-//! ownership of the creations by several treaps, insert/remove rhythms, queues, insertions interleaved
+//! lazy modifications applied exactly once and in order).  The item's lazy modifications are "add 1" and
+//! "assign 0" over Z3 (they do not commute) and, in parts of their own, "add 1 + i to the i-th element of the
+//! subtree": a modification that depends on the position, so that `push` has to treat the left and the right
+//! child differently and `update` / `push` are judged on WHICH child they are handed in which slot.
+//! C16 judges heap order in every state of the same exploration, plus a directed (not exhaustive) menu of
+//! long deterministic histories through the real priority generator for the height bound: single-treap
+//! orders, block concatenation, strided ownership of the creations by several treaps, insert/remove rhythms,
+//! queues, insertions interleaved
 //! with operations that create no node, regrowth after removals, and — each in a process of its own, so
 //! that "the k-th thread of the process to create a node" is a deterministic notion — histories that
 //! spread the node creations over several threads (every thread ordinal of a process building a treap;
 //! chunks built on 2 … 1024 threads — started one after the other was joined, all kept alive, or next to a
-//! few long-lived threads — and concatenated; nodes created round-robin by several threads).
+//! few long-lived threads — and concatenated; nodes created round-robin by several threads; the workers of
+//! all three also carrying thread names: one name for all, a name each, a name for every second one).
 //!
 //! C03 also has a directed (not exhaustive) part: trees of up to ~1000 nodes written down as struct literals
 //! in systematic shape families (paths, zigzags, caterpillars, combs, balanced trees and mixes) with lazy
@@ -27,7 +32,13 @@ use std::sync::atomic::{AtomicU64, Ordering};
 use vcore::*;
 
 // ---------------------------------------------------------------------------------------------
-// item: value in Z3, subtree size, aggregate = word of the subtree's values, pending affine map
+// item: value in Z3, subtree size, aggregate = word of the subtree's values, pending modification
+
+/// A lazy modification: the element at position i (0-based) of the subtree it is attached to becomes
+/// a*x + b + d*i (mod 3).  With d = 0 these are the affine maps (add, assign); with d != 0 the modification
+/// depends on the POSITION ("add an arithmetic progression"), so pushing it treats the two children
+/// differently: the left child continues at position 0, the right child at position left_size + 1.
+type Tag = (u8, u8, u8);
 
 /// `I` = type of the element ids: u8 in the exploration (at most 6 nodes), u32 in the directed shape sweep
 #[derive(Clone, Debug, PartialEq)]
@@ -35,33 +46,57 @@ struct It<I = u8> {
     id: I,
     val: u8,
     size: u32,
+    /// size of the left subtree = position of `val` inside this subtree
+    lsize: u32,
     agg: Vec<u8>,
-    /// pending x -> a*x + b (mod 3); identity (1, 0)
-    tag: (u8, u8),
+    /// pending for the children (already applied to `val` and `agg`), positions counted from the first
+    /// element of THIS subtree; identity (1, 0, 0)
+    tag: Tag,
 }
 
-const IDT: (u8, u8) = (1, 0);
-const MODS: [(u8, u8); 2] = [(1, 1), (0, 0)]; // add 1, assign 0 — they do not commute
+const IDT: Tag = (1, 0, 0);
+/// add 1, assign 0 (they do not commute), add the progression 1 + i (asymmetric push)
+const MODS: [Tag; 3] = [(1, 1, 0), (0, 0, 0), (1, 1, 1)];
+const MOD_NAMES: [&str; 3] = ["add 1", "assign 0", "add 1+i to the i-th element"];
+const AFFINE: &[u8] = &[0, 1];
+const PROGRESSION: &[u8] = &[2, 1];
+
+/// x at position i under m
+fn map_val(m: Tag, x: u8, i: usize) -> u8 {
+    ((m.0 * x + m.1) as usize + m.2 as usize * (i % 3)) as u8 % 3
+}
+
+/// position by position x -> outer(inner(x)); both count positions from the same element
+fn compose(outer: Tag, inner: Tag) -> Tag {
+    ((outer.0 * inner.0) % 3, (outer.0 * inner.1 + outer.1) % 3, (outer.0 * inner.2 + outer.2) % 3)
+}
+
+/// m as seen from the element at position k: positions counted from there
+fn shift(m: Tag, k: usize) -> Tag {
+    (m.0, map_val((1, m.1, m.2), 0, k), m.2)
+}
 
 impl<I> It<I> {
     fn new(id: I, val: u8) -> It<I> {
-        It { id, val, size: 1, agg: vec![val], tag: IDT }
+        It { id, val, size: 1, lsize: 0, agg: vec![val], tag: IDT }
     }
-    fn apply(&mut self, m: (u8, u8)) {
-        self.val = (m.0 * self.val + m.1) % 3;
-        for x in self.agg.iter_mut() {
-            *x = (m.0 * *x + m.1) % 3;
+    /// `m` counts positions from the first element of this subtree
+    fn apply(&mut self, m: Tag) {
+        self.val = map_val(m, self.val, self.lsize as usize);
+        for (k, x) in self.agg.iter_mut().enumerate() {
+            *x = map_val(m, *x, k);
         }
         // a node without children has nobody to forward the modification to
         if self.size >= 2 {
-            self.tag = ((m.0 * self.tag.0) % 3, (m.0 * self.tag.1 + m.1) % 3);
+            self.tag = compose(m, self.tag);
         }
     }
 }
 
 impl<I> TreapItem for It<I> {
     fn update(&mut self, l: Option<&Self>, r: Option<&Self>) {
-        self.size = 1 + l.map_or(0, |x| x.size) + r.map_or(0, |x| x.size);
+        self.lsize = l.map_or(0, |x| x.size);
+        self.size = 1 + self.lsize + r.map_or(0, |x| x.size);
         let mut agg = l.map_or(vec![], |x| x.agg.clone());
         agg.push(self.val);
         if let Some(r) = r {
@@ -73,11 +108,13 @@ impl<I> TreapItem for It<I> {
     fn push(&mut self, l: Option<&mut Self>, r: Option<&mut Self>) {
         if self.tag != IDT {
             let t = self.tag;
+            // the right child's elements come after the left child's and this node's own
+            let before_right = l.as_ref().map_or(0, |x| x.size as usize) + 1;
             if let Some(l) = l {
                 l.apply(t);
             }
             if let Some(r) = r {
-                r.apply(t);
+                r.apply(shift(t, before_right));
             }
             self.tag = IDT;
         }
@@ -102,17 +139,18 @@ fn copy_treap<T: Clone>(t: &Treap<T>) -> Treap<T> {
     Treap { root: copy_node(&t.root) }
 }
 
-/// `val >= 4` encodes "value val-4, carrying a pending modification (add 1)": a consistent one-element
-/// subtree whose tag has nobody to go to.  A correct treap pushes a node before it adopts children, which
-/// discards such a tag; one that does not would apply it to neighbours it was never attached to.
+/// `val >= 4` encodes "value val % 4, carrying a pending modification" (4..8: add 1, 8..12: the
+/// progression): a consistent one-element subtree whose tag has nobody to go to.  A correct treap pushes a
+/// node before it adopts children, which discards such a tag; one that does not would apply it to
+/// neighbours it was never attached to.
 fn make_item<I>(id: I, val: u8) -> It<I> {
-    if val >= 4 {
-        let mut it = It::new(id, val - 4);
-        it.tag = MODS[0];
-        it
-    } else {
-        It::new(id, val)
-    }
+    let mut it = It::new(id, val % 4);
+    it.tag = match val / 4 {
+        0 => IDT,
+        1 => MODS[0],
+        _ => MODS[2],
+    };
+    it
 }
 
 fn single(id: u8, val: u8, prio: u32) -> Treap<It> {
@@ -184,8 +222,10 @@ struct Sys {
     max_slots: usize,
     mode: Mode,
     vals: u8,
-    /// also create nodes whose item carries a stale pending tag
-    dirty: bool,
+    /// also create nodes whose item carries a stale pending tag (`make_item`'s code of such a node)
+    stale: Option<u8>,
+    /// the lazy modifications of the alphabet (indices into MODS)
+    mods: &'static [u8],
 }
 
 static CONTROLLED_DRAWS: AtomicU64 = AtomicU64::new(0);
@@ -345,8 +385,8 @@ impl Sys {
             }
             let sub = Some(Box::new(Node { item: n.item.clone(), priority: n.priority, left: copy_node(&n.left), right: copy_node(&n.right) }));
             let cnt = count(&sub);
-            if n.item.size != cnt {
-                err = Some(format!("node id {} caches size {} but its subtree has {} nodes", n.item.id, n.item.size, cnt));
+            if n.item.size != cnt || n.item.lsize != count(&n.left) {
+                err = Some(format!("node id {} caches size {} (left subtree: {}) but its subtree has {} nodes (left subtree: {})", n.item.id, n.item.size, n.item.lsize, cnt, count(&n.left)));
                 return;
             }
             let mut st = Treap { root: sub };
@@ -401,7 +441,7 @@ impl System for Sys {
         let nlev = Self::levels(s).len() as u8;
         if total < self.max_nodes && s.slots.len() < self.max_slots {
             for pc in 1..=2 * nlev + 1 {
-                for val in (0..self.vals).chain(if self.dirty { Some(4) } else { None }) {
+                for val in (0..self.vals).chain(self.stale) {
                     v.push(Act::New(pc, val));
                 }
             }
@@ -435,7 +475,7 @@ impl System for Sys {
                 let pcs: Vec<u8> = (1..=2 * nlev + 1).collect();
                 for pos in 0..=len {
                     for &pc in &pcs {
-                        for val in (0..self.vals).chain(if self.dirty { Some(4) } else { None }) {
+                        for val in (0..self.vals).chain(self.stale) {
                             v.push(Act::InsertAt(i, pos, pc, val));
                         }
                     }
@@ -444,7 +484,7 @@ impl System for Sys {
             for pos in 0..len {
                 v.push(Act::RemoveAt(i, pos));
             }
-            for m in 0..MODS.len() as u8 {
+            for &m in self.mods {
                 v.push(Act::Apply(i, m));
             }
             v.push(Act::First(i));
@@ -625,8 +665,8 @@ impl System for Sys {
                 if let Some(r) = s.slots[i].root_mut() {
                     r.apply(md);
                 }
-                for e in s.models[i].iter_mut() {
-                    e.1 = (md.0 * e.1 + md.1) % 3;
+                for (k, e) in s.models[i].iter_mut().enumerate() {
+                    e.1 = map_val(md, e.1, k);
                 }
                 out = 0;
             }
@@ -685,7 +725,8 @@ impl System for Sys {
                     out.push(b.priority as u8);
                     out.push(b.item.val);
                     out.push(b.item.size as u8);
-                    out.push(b.item.tag.0 * 3 + b.item.tag.1);
+                    out.push(b.item.lsize as u8);
+                    out.push(b.item.tag.0 * 9 + b.item.tag.1 * 3 + b.item.tag.2);
                     out.push(b.item.agg.len() as u8);
                     out.extend_from_slice(&b.item.agg);
                     enc(&b.left, out);
@@ -748,15 +789,6 @@ impl System for Sys {
 type Big = It<u32>;
 type BNode = TreapNode<Big>;
 type Seq = Vec<(u32, u8)>;
-
-/// x -> outer(inner(x))
-fn compose(outer: (u8, u8), inner: (u8, u8)) -> (u8, u8) {
-    ((outer.0 * inner.0) % 3, (outer.0 * inner.1 + outer.1) % 3)
-}
-
-fn map_val(m: (u8, u8), x: u8) -> u8 {
-    (m.0 * x + m.1) % 3
-}
 
 #[derive(Clone, Copy, Debug, PartialEq)]
 enum Shape {
@@ -875,24 +907,27 @@ fn shapes_for(n: usize) -> Vec<Shape> {
 #[derive(Clone, Copy, Debug, PartialEq)]
 enum Tags {
     None,
-    /// add 1 at the root
+    /// the progression 1 + i at the root
     Root,
-    /// at about three of four inner nodes, all six affine maps, all depths
+    /// at about three of four inner nodes, all six affine maps, each with a progression of step 0, 1 or 2
+    /// on top, all depths
     Scattered,
     /// the same, but only in the lower half of the levels: an operation meets them far from the root
     Deep,
 }
 
 const TAGS: [Tags; 4] = [Tags::None, Tags::Root, Tags::Scattered, Tags::Deep];
-/// the affine maps over Z3 (compositions of add 1 and assign 0)
-const SCATTER: [(u8, u8); 8] = [IDT, (1, 1), (0, 0), (1, 2), (0, 1), (1, 1), IDT, (0, 2)];
+/// the affine maps over Z3 (compositions of add 1 and assign 0); `Tags::at` adds the progression step
+const SCATTER: [(u8, u8); 8] = [(1, 0), (1, 1), (0, 0), (1, 2), (0, 1), (1, 1), (1, 0), (0, 2)];
 
 impl Tags {
-    fn at(self, pos: usize, depth: usize, height: usize) -> (u8, u8) {
-        let scattered = SCATTER[((pos * 5) ^ (pos >> 3) ^ (depth * 3)) % 8];
+    fn at(self, pos: usize, depth: usize, height: usize) -> Tag {
+        let (a, b) = SCATTER[((pos * 5) ^ (pos >> 3) ^ (depth * 3)) % 8];
+        // one node in four stays without a pending modification
+        let scattered = if (a, b) == (1, 0) { IDT } else { (a, b, ((pos / 2 + depth) % 3) as u8) };
         match self {
             Tags::None => IDT,
-            Tags::Root if depth == 0 => MODS[0],
+            Tags::Root if depth == 0 => MODS[2],
             Tags::Root => IDT,
             Tags::Scattered => scattered,
             Tags::Deep if 2 * depth >= height => scattered,
@@ -969,17 +1004,19 @@ impl Rel {
     }
 }
 
-/// size and aggregate a node must cache, given what its children cache: the values of its subtree with
-/// every modification pending INSIDE the subtree applied (those pending above it are not its business)
-fn due_cache(n: &BNode) -> (u32, Vec<u8>) {
+/// sizes (subtree, left subtree) and aggregate a node must cache, given what its children cache: the values
+/// of its subtree with every modification pending INSIDE the subtree applied (those pending above it are
+/// not its business)
+fn due_cache(n: &BNode) -> (u32, u32, Vec<u8>) {
     let t = n.item.tag;
-    let mut agg: Vec<u8> = n.left.as_ref().map_or(vec![], |l| l.item.agg.iter().map(|&x| map_val(t, x)).collect());
+    let lsize = n.left.as_ref().map_or(0, |l| l.item.size);
+    let mut agg: Vec<u8> = n.left.as_ref().map_or(vec![], |l| l.item.agg.iter().enumerate().map(|(k, &x)| map_val(t, x, k)).collect());
     agg.push(n.item.val);
     if let Some(r) = &n.right {
-        agg.extend(r.item.agg.iter().map(|&x| map_val(t, x)));
+        agg.extend(r.item.agg.iter().enumerate().map(|(k, &x)| map_val(t, x, lsize as usize + 1 + k)));
     }
     agg.truncate(32);
-    (1 + n.left.as_ref().map_or(0, |l| l.item.size) + n.right.as_ref().map_or(0, |r| r.item.size), agg)
+    (1 + lsize + n.right.as_ref().map_or(0, |r| r.item.size), lsize, agg)
 }
 
 struct Built {
@@ -991,9 +1028,10 @@ struct Built {
 }
 
 /// The tree of `n` nodes of the given shape as a struct literal: element ids `id0`, `id0`+1, … in sequence
-/// order, stored values a fixed non-periodic pattern, modifications pending where `tags` says, priority of a
-/// node = its depth.  The model holds the values with every pending modification applied (a node's own first,
-/// then its parent's, … — the order in which they were attached in any history that leads to such a tree).
+/// order, stored values a fixed non-periodic pattern, modifications pending where `tags` says (each counting
+/// positions from the first element of the subtree it is pending at), priority of a node = its depth.  The
+/// model holds the values with every pending modification applied (a node's own first, then its parent's, …
+/// — the order in which they were attached in any history that leads to such a tree).
 fn build_shape(shape: Shape, n: usize, tags: Tags, id0: u32) -> Built {
     struct Ctx {
         tags: Tags,
@@ -1002,7 +1040,8 @@ fn build_shape(shape: Shape, n: usize, tags: Tags, id0: u32) -> Built {
         model: Seq,
         deepest_tag: Option<usize>,
     }
-    fn rec(c: &mut Ctx, s: Shape, lo: usize, hi: usize, depth: usize, above: (u8, u8)) -> Option<Box<BNode>> {
+    /// `above`: everything pending above this subtree, positions counted from `lo`
+    fn rec(c: &mut Ctx, s: Shape, lo: usize, hi: usize, depth: usize, above: Tag) -> Option<Box<BNode>> {
         if lo == hi {
             return None;
         }
@@ -1013,10 +1052,10 @@ fn build_shape(shape: Shape, n: usize, tags: Tags, id0: u32) -> Built {
         }
         let val = ((r * r + r / 3) % 3) as u8;
         let left = rec(c, ls, lo, r, depth + 1, compose(above, tag));
-        c.model.push((c.id0 + r as u32, map_val(above, val)));
-        let right = rec(c, rs, r + 1, hi, depth + 1, compose(above, tag));
-        let mut node = Box::new(BNode { item: It { id: c.id0 + r as u32, val, size: 1, agg: vec![], tag }, priority: depth as u32, left, right });
-        (node.item.size, node.item.agg) = due_cache(&node);
+        c.model.push((c.id0 + r as u32, map_val(above, val, r - lo)));
+        let right = rec(c, rs, r + 1, hi, depth + 1, shift(compose(above, tag), r + 1 - lo));
+        let mut node = Box::new(BNode { item: It { id: c.id0 + r as u32, val, size: 1, lsize: 0, agg: vec![], tag }, priority: depth as u32, left, right });
+        (node.item.size, node.item.lsize, node.item.agg) = due_cache(&node);
         Some(node)
     }
     let mut c = Ctx { tags, height: shape.height(n), id0, model: vec![], deepest_tag: None };
@@ -1065,9 +1104,9 @@ fn check_big(t: &Treap<Big>, model: &[(u32, u8)]) -> Result<(), String> {
         if err.is_some() {
             return;
         }
-        let (size, agg) = due_cache(n);
-        if (n.item.size, &n.item.agg) != (size, &agg) {
-            err = Some(format!("node id {} caches size {} and aggregate {:?}, its subtree has size {size} and (pending modifications applied) values {agg:?}", n.item.id, n.item.size, n.item.agg));
+        let (size, lsize, agg) = due_cache(n);
+        if (n.item.size, n.item.lsize, &n.item.agg) != (size, lsize, &agg) {
+            err = Some(format!("node id {} caches size {} (left subtree: {}) and aggregate {:?}, its subtree has size {size} (left subtree: {lsize}) and (pending modifications applied) values {agg:?}", n.item.id, n.item.size, n.item.lsize, n.item.agg));
         }
     });
     err.map_or(Ok(()), Err)
@@ -1165,6 +1204,20 @@ impl ShapeCase {
             // the literal itself, then the walks that read elements (they push on their way)
             "observe" => {
                 judge("the tree as written down", &t, &model)?;
+                // last() and collect() also on a copy of the literal: there they meet the modifications
+                // that first() would have pushed out of their way
+                let mut c = copy_treap(&t);
+                let got = c.last().map(|x| (x.id, x.val));
+                if got != model.last().copied() {
+                    return Err(format!("last() on the tree as written down returned {:?}, the vector gives {:?}", got, model.last()));
+                }
+                judge("after last() on the tree as written down", &c, &model)?;
+                let mut c = copy_treap(&t);
+                let got: Seq = c.collect().iter().map(|x| (x.id, x.val)).collect();
+                if got != model {
+                    return Err(format!("collect() on the tree as written down returned {}", first_diff(&got, &model)));
+                }
+                judge("after collect() on the tree as written down", &c, &model)?;
                 let got = t.first().map(|x| (x.id, x.val));
                 if got != model.first().copied() {
                     return Err(format!("first() returned {:?}, the vector gives {:?}", got, model.first()));
@@ -1191,9 +1244,10 @@ impl ShapeCase {
                 judge("right part", &r, &model[a..])?;
                 judge("the parts merged again", &Treap::merge(l, r), &model)?;
             }
-            // a = position; a new element (odd positions: one that carries a stale pending tag), then out again
+            // a = position; a new element (odd positions: one that carries a stale pending tag — add 1 or the
+            // progression), then out again
             "insert_at" => {
-                let new = (n as u32, if a % 2 == 1 { 4 } else { 2 });
+                let new = (n as u32, [2, 4, 2, 9][a % 4]);
                 t.insert_at(a, make_item(new.0, new.1));
                 model.insert(a, (new.0, new.1 % 4));
                 judge("after insert_at", &t, &model)?;
@@ -1218,7 +1272,7 @@ impl ShapeCase {
                 if let Some(r) = t.root_mut() {
                     r.apply(md);
                 }
-                model.iter_mut().for_each(|e| e.1 = map_val(md, e.1));
+                model.iter_mut().enumerate().for_each(|(k, e)| e.1 = map_val(md, e.1, k));
                 judge("after a modification at the root", &t, &model)?;
                 let (l, r) = t.split_at(a);
                 judge("left part", &l, &model[..a])?;
@@ -1230,11 +1284,11 @@ impl ShapeCase {
                 let (l, rest) = t.split_at(a);
                 let (mut mid, r) = rest.split_at(b - a);
                 judge("the middle part", &mid, &model[a..b])?;
-                let md = MODS[(a + b) % 2];
+                let md = MODS[(a + b) % MODS.len()];
                 if let Some(r) = mid.root_mut() {
                     r.apply(md);
                 }
-                model[a..b].iter_mut().for_each(|e| e.1 = map_val(md, e.1));
+                model[a..b].iter_mut().enumerate().for_each(|(k, e)| e.1 = map_val(md, e.1, k));
                 judge("the modified middle part", &mid, &model[a..b])?;
                 judge("the three parts merged again", &Treap::merge(Treap::merge(l, mid), r), &model)?;
             }
@@ -1527,6 +1581,45 @@ enum Life {
     Residents(usize),
 }
 
+/// Which worker threads of a multi-thread history carry a name (`std::thread::Builder::name`).  A thread's
+/// attributes are visible to the code under test, so its generators could be keyed on them; a thread pool
+/// typically gives all of its workers one and the same name.
+#[derive(Clone, Copy, Debug, PartialEq)]
+enum Names {
+    /// none (what `std::thread::spawn` gives)
+    Unnamed,
+    /// all of them, one name for all
+    Same,
+    /// all of them, every one its own name
+    Distinct,
+    /// every second one (the odd ones of the order in which they are started), one name for all of those
+    Some,
+}
+
+const NAMED: [Names; 3] = [Names::Same, Names::Distinct, Names::Some];
+
+impl Names {
+    /// the name of the i-th worker thread of a history
+    fn of(self, i: usize) -> Option<String> {
+        match self {
+            Names::Unnamed => None,
+            Names::Same => Some("worker".to_string()),
+            Names::Distinct => Some(format!("worker-{i}")),
+            Names::Some => (i % 2 == 1).then(|| "worker".to_string()),
+        }
+    }
+
+    /// suffix of a history's label
+    fn label(self) -> &'static str {
+        match self {
+            Names::Unnamed => "",
+            Names::Same => "/names=same",
+            Names::Distinct => "/names=distinct",
+            Names::Some => "/names=some",
+        }
+    }
+}
+
 /// One directed history.  Every family is parametrised by a size `n` whose meaning is given per variant.
 #[derive(Clone, Copy, Debug, PartialEq)]
 enum Hist {
@@ -1554,16 +1647,16 @@ enum Hist {
     /// every thread ordinal of a process: threads #0 … #n-1 run one after another, each is the next thread
     /// of the process to create a node and builds a treap of ORDINAL_ELEMS elements by appends (front
     /// insertions); n = number of threads
-    Ordinals { front: bool },
+    Ordinals { front: bool, names: Names },
     /// chunks built on different threads: `threads` workers, one after another, each build a chunk of `c`
     /// elements on a thread that has never created a node and hand it over; the collecting thread
     /// concatenates the chunks with Treap::merge; every chunk is probed, and so is every intermediate result
     /// (from the 33rd merge on: those that have doubled in size, and the last one)
-    Chunks { threads: usize, c: usize, fill: Fill, order: Concat, life: Life },
+    Chunks { threads: usize, c: usize, fill: Fill, order: Concat, life: Life, names: Names },
     /// nodes created round-robin by `threads` live workers (worker w creates the single-node treaps
     /// w, w+threads, … of the sequence, one per request) and put into one treap by the collecting thread
     /// with merge at the back / at the front / in the middle (split_at + two merges); n = nodes per worker
-    RoundRobin { threads: usize, mode: &'static str },
+    RoundRobin { threads: usize, mode: &'static str, names: Names },
 }
 
 const BASIC: &[&str] = &["append", "push_front", "insert_middle", "rotate", "append_remove_alternate", "two_treaps_then_merge", "from_item_merge", "insert_one_third"];
@@ -1583,6 +1676,9 @@ const ORDINAL_ELEMS: usize = 256;
 const CHUNK_THREADS: &[usize] = &[2, 4, 8, 16, 32, 64, 128, 256, 512, 1024];
 const CHUNK_SIZES: &[usize] = &[1, 8, 100, 1000, 10000];
 const CHUNK_LIVES: &[Life] = &[Life::Joined, Life::Parked, Life::Residents(3)];
+/// chunk sizes of the chunk histories whose workers carry names (built by appends; every worker count,
+/// every order of concatenation, workers joined one by one or all kept alive)
+const NAMED_CHUNK_SIZES: &[usize] = &[1, 100];
 /// (largest worker count, most elements of one history, largest count of workers that all stay alive) of the
 /// chunks family
 fn chunk_limits(quick: bool) -> (usize, usize, usize) {
@@ -1628,23 +1724,38 @@ fn menu() -> Vec<Hist> {
             }
         }
     }
-    for front in [false, true] {
-        v.push(Hist::Ordinals { front });
+    for names in [Names::Unnamed].into_iter().chain(NAMED) {
+        for front in [false, true] {
+            v.push(Hist::Ordinals { front, names });
+        }
     }
     for &threads in CHUNK_THREADS {
         for &c in CHUNK_SIZES {
             for fill in [Fill::NewAppend, Fill::NewFront, Fill::FromItemMerge] {
                 for order in [Concat::Forward, Concat::Mirrored, Concat::Pairwise] {
                     for &life in CHUNK_LIVES {
-                        v.push(Hist::Chunks { threads, c, fill, order, life });
+                        v.push(Hist::Chunks { threads, c, fill, order, life, names: Names::Unnamed });
                     }
                 }
             }
         }
     }
-    for &threads in RR_THREADS {
-        for &mode in RR_MODES {
-            v.push(Hist::RoundRobin { threads, mode });
+    for names in NAMED {
+        for &threads in CHUNK_THREADS {
+            for &c in NAMED_CHUNK_SIZES {
+                for order in [Concat::Forward, Concat::Mirrored, Concat::Pairwise] {
+                    for life in [Life::Joined, Life::Parked] {
+                        v.push(Hist::Chunks { threads, c, fill: Fill::NewAppend, order, life, names });
+                    }
+                }
+            }
+        }
+    }
+    for names in [Names::Unnamed].into_iter().chain(NAMED) {
+        for &threads in RR_THREADS {
+            for &mode in RR_MODES {
+                v.push(Hist::RoundRobin { threads, mode, names });
+            }
         }
     }
     v
@@ -1671,8 +1782,8 @@ impl Hist {
             Hist::Queue { len, front } => format!("queue/len={len}/{}", end(front)),
             Hist::Interleaved { op, front } => format!("interleaved/{op}/{}", end(front)),
             Hist::Regrow { at, removed, front } => format!("regrow/remove_{removed}_at_{at}/{}", end(front)),
-            Hist::Ordinals { front } => format!("thread_ordinals/{}", end(front)),
-            Hist::Chunks { threads, c, fill, order, life } => {
+            Hist::Ordinals { front, names } => format!("thread_ordinals/{}{}", end(front), names.label()),
+            Hist::Chunks { threads, c, fill, order, life, names } => {
                 let o = match order {
                     Concat::Forward => "merge(acc,chunk)",
                     Concat::Mirrored => "merge(chunk,acc)",
@@ -1683,9 +1794,9 @@ impl Hist {
                     Life::Parked => "/workers_stay_alive".to_string(),
                     Life::Residents(k) => format!("/{k}_resident_threads"),
                 };
-                format!("chunks/T={threads}/c={c}/{}/{o}{l}", fill_name(fill))
+                format!("chunks/T={threads}/c={c}/{}/{o}{l}{}", fill_name(fill), names.label())
             }
-            Hist::RoundRobin { threads, mode } => format!("roundrobin/T={threads}/{mode}"),
+            Hist::RoundRobin { threads, mode, names } => format!("roundrobin/T={threads}/{mode}{}", names.label()),
         }
     }
 
@@ -1722,13 +1833,8 @@ impl Hist {
         let total = if quick { 1 << 17 } else { 1 << 20 };
         match *self {
             Hist::Basic(_) | Hist::Blocks { .. } | Hist::Interleaved { .. } | Hist::Regrow { .. } => n,
-            Hist::Ordinals { .. } => {
-                if quick {
-                    4096
-                } else {
-                    65536
-                }
-            }
+            // a thread start is the expensive part: the named variants sweep a quarter of the ordinals
+            Hist::Ordinals { names, .. } => (if quick { 4096 } else { 65536 }) / if names == Names::Unnamed { 1 } else { 4 },
             // the parameters are part of the history: n = total number of elements
             Hist::Chunks { threads, c, .. } => threads * c,
             // every node costs two thread switches
@@ -1854,8 +1960,21 @@ impl From<String> for MenuFail {
 /// Runs `f` on a new thread (which therefore has never created a node) with a stack of `stack_mb` MiB and
 /// waits for it.
 fn on_new_thread<R: Send + 'static>(what: &str, stack_mb: usize, f: impl FnOnce() -> R + Send + 'static) -> Result<R, String> {
-    std::thread::Builder::new()
-        .stack_size(stack_mb << 20)
+    on_named_thread(None, what, stack_mb, f)
+}
+
+/// a thread with a stack of `stack_mb` MiB and, if given, a name
+fn thread_builder(name: Option<String>, stack_mb: usize) -> std::thread::Builder {
+    let b = std::thread::Builder::new().stack_size(stack_mb << 20);
+    match name {
+        Some(name) => b.name(name),
+        None => b,
+    }
+}
+
+/// `on_new_thread` on a thread that carries `name`
+fn on_named_thread<R: Send + 'static>(name: Option<String>, what: &str, stack_mb: usize, f: impl FnOnce() -> R + Send + 'static) -> Result<R, String> {
+    thread_builder(name, stack_mb)
         .spawn(f)
         .map_err(|e| format!("cannot start a thread: {e}"))?
         .join()
@@ -1869,15 +1988,14 @@ struct Staying {
 }
 
 impl Staying {
-    /// Starts a thread with a stack of `stack_mb` MiB, waits until it has computed `f()` (None: it panicked)
-    /// and leaves it alive.
-    fn spawn<R: Send + 'static>(stack_mb: usize, f: impl FnOnce() -> R + Send + 'static) -> Result<(Option<R>, Staying), MenuFail> {
+    /// Starts a thread with a stack of `stack_mb` MiB (and a name, if given), waits until it has computed
+    /// `f()` (None: it panicked) and leaves it alive.
+    fn spawn<R: Send + 'static>(name: Option<String>, stack_mb: usize, f: impl FnOnce() -> R + Send + 'static) -> Result<(Option<R>, Staying), MenuFail> {
         use std::sync::{Arc, Condvar, Mutex};
         let quit = Arc::new((Mutex::new(false), Condvar::new()));
         let done: Arc<(Mutex<Option<Option<R>>>, Condvar)> = Arc::new((Mutex::new(None), Condvar::new()));
         let (quit2, done2) = (quit.clone(), done.clone());
-        let handle = std::thread::Builder::new()
-            .stack_size(stack_mb << 20)
+        let handle = thread_builder(name, stack_mb)
             .spawn(move || {
                 let r = catch(f).ok();
                 *done2.0.lock().unwrap() = Some(r);
@@ -2162,10 +2280,10 @@ fn menu_history(hist: Hist, n: usize, offset: usize) -> Result<MenuOk, MenuFail>
             }
             expect_size = REGROW_BASE - r + n;
         }
-        Hist::Ordinals { front } => {
+        Hist::Ordinals { front, names } => {
             for k in 0..n {
                 let label = p.label.clone();
-                let r = on_new_thread("the thread", 2, move || -> Result<(usize, u64), String> {
+                let r = on_named_thread(names.of(k), "the thread", 2, move || -> Result<(usize, u64), String> {
                     for _ in 0..offset {
                         let _ = TreapNode::new(item());
                     }
@@ -2192,13 +2310,14 @@ fn menu_history(hist: Hist, n: usize, offset: usize) -> Result<MenuOk, MenuFail>
             }
             expect_size = 0;
         }
-        Hist::Chunks { threads, c, fill, order, life } => {
+        Hist::Chunks { threads, c, fill, order, life, names } => {
             let fail = |what: &str| MenuFail::from(format!("history {} (offset {offset}): {what}", hist.label()));
             // the threads that stay alive until the history ends
             let mut alive: Vec<Staying> = vec![];
             if let Life::Residents(k) = life {
-                for _ in 0..k {
-                    let (r, th) = Staying::spawn(1, || drop(TreapNode::new(item())))?;
+                for j in 0..k {
+                    // named like further workers of the same pool
+                    let (r, th) = Staying::spawn(names.of(threads + j), 1, || drop(TreapNode::new(item())))?;
                     alive.push(th);
                     r.ok_or_else(|| fail("a long-lived thread panicked while creating one node"))?;
                 }
@@ -2210,11 +2329,11 @@ fn menu_history(hist: Hist, n: usize, offset: usize) -> Result<MenuOk, MenuFail>
             let mut parts: Vec<Treap<Sz>> = vec![];
             for i in 0..threads {
                 let chunk = if life == Life::Parked {
-                    let (r, th) = Staying::spawn(stack_mb, move || build_chunk(fill, c, offset))?;
+                    let (r, th) = Staying::spawn(names.of(i), stack_mb, move || build_chunk(fill, c, offset))?;
                     alive.push(th);
                     r.ok_or_else(|| fail("the thread building a chunk panicked"))?
                 } else {
-                    on_new_thread("the thread building a chunk", stack_mb, move || build_chunk(fill, c, offset)).map_err(|m| fail(&m))?
+                    on_named_thread(names.of(i), "the thread building a chunk", stack_mb, move || build_chunk(fill, c, offset)).map_err(|m| fail(&m))?
                 };
                 steps += c;
                 p.ctx = format!("chunk built by thread #{i}: ");
@@ -2264,24 +2383,26 @@ fn menu_history(hist: Hist, n: usize, offset: usize) -> Result<MenuOk, MenuFail>
             Staying::release(alive);
             expect_size = threads * c;
         }
-        Hist::RoundRobin { threads, mode } => {
+        Hist::RoundRobin { threads, mode, names } => {
             use std::sync::mpsc::channel;
             // worker w answers every request with one freshly created single-node treap (None: it panicked)
             let (tx_node, rx_node) = channel::<Option<Treap<Sz>>>();
             let mut requests = vec![];
-            for _ in 0..threads {
+            for w in 0..threads {
                 let (tx_req, rx_req) = channel::<()>();
                 let tx_node = tx_node.clone();
-                std::thread::spawn(move || {
-                    for _ in 0..offset {
-                        let _ = TreapNode::new(item());
-                    }
-                    while rx_req.recv().is_ok() {
-                        if tx_node.send(catch(|| Treap::from_item(item())).ok()).is_err() {
-                            break;
+                thread_builder(names.of(w), 2)
+                    .spawn(move || {
+                        for _ in 0..offset {
+                            let _ = TreapNode::new(item());
                         }
-                    }
-                });
+                        while rx_req.recv().is_ok() {
+                            if tx_node.send(catch(|| Treap::from_item(item())).ok()).is_err() {
+                                break;
+                            }
+                        }
+                    })
+                    .map_err(|e| MenuFail { msg: format!("cannot start a thread: {e}"), n: None, machinery: true })?;
                 requests.push(tx_req);
             }
             for _ in 0..n {
@@ -2403,7 +2524,7 @@ fn child_main(case: &str) -> ! {
 // ---------------------------------------------------------------------------------------------
 
 fn sys_for(mode: Mode, n: usize) -> Sys {
-    Sys { max_nodes: n, max_slots: 3, mode, vals: 2, dirty: true }
+    Sys { max_nodes: n, max_slots: 3, mode, vals: 2, stale: Some(4), mods: AFFINE }
 }
 
 /// Plain re-execution of a history on a FRESH thread, after `predraws` node creations on that thread.  The
@@ -2585,25 +2706,28 @@ fn main() {
     let mut run = Run::new(&args, "treap", "model_checking");
     let quick = args.tier == Tier::Quick;
 
-    // (nodes, depth bound)
-    // (nodes, depth bound, also create nodes that carry a stale pending tag)
+    // (nodes, depth bound, also create nodes that carry a stale pending tag, the lazy modifications)
     let child = std::env::var("VCORE_CHILD").is_ok();
-    let plan: Vec<(usize, Option<usize>, bool)> = match (mode, quick) {
+    let (aff, prog) = (AFFINE, PROGRESSION);
+    let plan: Vec<(usize, Option<usize>, bool, &'static [u8])> = match (mode, quick) {
         // the second-profile child repeats a reduced plan
-        (Mode::C03, true) if child => vec![(2, None, true), (3, None, true), (4, Some(7), false)],
-        (Mode::C03, true) => vec![(2, None, true), (3, None, true), (4, Some(5), true), (4, None, false), (5, Some(6), false)],
-        (Mode::C03, false) => vec![(2, None, true), (3, None, true), (4, None, true), (5, None, false), (6, Some(6), false)],
-        (Mode::C16, true) => vec![(2, None, true), (3, None, true), (4, None, false), (5, Some(5), false)],
-        (Mode::C16, false) => vec![(2, None, true), (3, None, true), (4, None, true), (5, Some(8), false), (6, Some(6), false)],
+        (Mode::C03, true) if child => vec![(2, None, true, aff), (3, None, true, aff), (4, Some(7), false, aff), (2, None, true, prog), (3, None, true, prog)],
+        (Mode::C03, true) => vec![(2, None, true, aff), (3, None, true, aff), (4, Some(5), true, aff), (4, None, false, aff), (5, Some(6), false, aff), (2, None, true, prog), (3, None, true, prog), (4, Some(6), false, prog)],
+        (Mode::C03, false) => vec![(2, None, true, aff), (3, None, true, aff), (4, None, true, aff), (5, None, false, aff), (6, Some(6), false, aff), (2, None, true, prog), (3, None, true, prog), (4, None, true, prog), (5, Some(6), false, prog)],
+        // heap order does not depend on the items
+        (Mode::C16, true) => vec![(2, None, true, aff), (3, None, true, aff), (4, None, false, aff), (5, Some(5), false, aff)],
+        (Mode::C16, false) => vec![(2, None, true, aff), (3, None, true, aff), (4, None, true, aff), (5, Some(8), false, aff), (6, Some(6), false, aff)],
     };
     let mut states = 0u64;
     let mut transitions = 0u64;
     let mut outcomes = 0u64;
     let mut table = vec![];
     let mut exhaustive = true;
-    for (n, depth, dirty) in plan {
+    for (n, depth, dirty, mods) in plan {
         let mut sys = sys_for(mode, n);
-        sys.dirty = dirty;
+        sys.mods = mods;
+        // a stale tag of the part's own kind: add 1, or the progression
+        sys.stale = dirty.then_some(if mods == PROGRESSION { 8 } else { 4 });
         let cfg = ExploreCfg { max_depth: depth, max_states: 25_000_000, wall_cap_s: if quick { 40.0 } else { 1200.0 } };
         let t0 = std::time::Instant::now();
         let r = explore(&sys, &cfg);
@@ -2613,7 +2737,7 @@ fn main() {
         if depth.is_none() && !r.closed {
             exhaustive = false;
         }
-        table.push(json!({"max_nodes": n, "depth_bound": depth, "nodes_with_stale_tags": dirty, "wall_s": (t0.elapsed().as_secs_f64() * 100.0).round() / 100.0, "result": r.to_json()}));
+        table.push(json!({"max_nodes": n, "depth_bound": depth, "nodes_with_stale_tags": dirty, "modifications": mods.iter().map(|&m| MOD_NAMES[m as usize]).collect::<Vec<_>>(), "wall_s": (t0.elapsed().as_secs_f64() * 100.0).round() / 100.0, "result": r.to_json()}));
         if let Some(f) = &r.violation {
             let sig = format!("explore:N={}:{}", n, serde_json::to_string(&f.history).unwrap());
             // a defect that draws priorities of its own makes the outcome depend on where the thread's
@@ -2668,8 +2792,8 @@ fn main() {
         run.cov(
             "directed_shapes_note",
             format!(
-                "DIRECTED, NOT exhaustive (the `exhaustive` flag speaks about the exploration only): trees written down as struct literals (no priority drawn) of n in {:?} nodes in the shape families {:?} (parameters of the largest size; the same tree is taken once), element ids = positions, values a fixed pattern over Z3, lazy modifications pending nowhere / at the root / scattered over about 3 of 4 inner nodes (all six affine maps) / scattered over the lower half of the levels only, the model holding every pending modification applied (a node's own first, then its ancestors' from the parent up). \
-                 Operations, each applied once to a fresh copy of the literal and every treap it leaves judged by the invariants of the exploration in linear time (collect() on a copy = the vector, size, root aggregate, every node's cached size and aggregate against its children's): first/last/collect; split_at and split_by at position a, both parts, then the parts merged again; insert_at a (a plain element, at odd a one that carries a stale tag) and remove_at a of it again; remove_at a; a modification (add 1 / assign 0) attached at the root, then split_at a and merge; positions a..b split out, the middle part's aggregate judged, modified at its root, the three parts merged. Positions: every a in 0..=n for n <= {}, above that the ends, the middle and the neighbours of 32, 64, …, 2048 counted from either end{}; range ends in {{0, 1, n/3, n/2, n-1, n}}. \
+                "DIRECTED, NOT exhaustive (the `exhaustive` flag speaks about the exploration only): trees written down as struct literals (no priority drawn) of n in {:?} nodes in the shape families {:?} (parameters of the largest size; the same tree is taken once), element ids = positions, values a fixed pattern over Z3, lazy modifications pending nowhere / at the root (the progression: add 1 + i to the i-th element) / scattered over about 3 of 4 inner nodes (all six affine maps, each with a progression of step 0, 1 or 2 on top: x_i -> a*x_i + b + d*i, i counted inside the node's own subtree, so every push on the way treats its two children differently) / scattered over the lower half of the levels only, the model holding every pending modification applied (a node's own first, then its ancestors' from the parent up). \
+                 Operations, each applied once to a fresh copy of the literal and every treap it leaves judged by the invariants of the exploration in linear time (collect() on a copy = the vector, size, root aggregate, every node's cached size and aggregate against its children's): first/last/collect (last and collect also on a copy of the literal, where first has not pushed the root yet); split_at and split_by at position a, both parts, then the parts merged again; insert_at a (a plain element, at odd a one that carries a stale tag: add 1 or the progression) and remove_at a of it again; remove_at a; a modification (add 1 / assign 0 / the progression) attached at the root, then split_at a and merge; positions a..b split out, the middle part's aggregate judged, modified at its root, the three parts merged. Positions: every a in 0..=n for n <= {}, above that the ends, the middle and the neighbours of 32, 64, …, 2048 counted from either end{}; range ends in {{0, 1, n/3, n/2, n-1, n}}. \
                  Priorities of the literal: by depth d, as d (`low`), as u32::MAX - (deepest - d) (`high`) or as d * u32::MAX / deepest (`spread`); insert_at — the only operation that draws a priority — runs under all three (the new node becomes a leaf at the end of a long merge seam / the root after a long split / lands in the middle), every other operation under one. \
                  merge: every ordered pair of (n, shape) with n in {:?}, tags (none, none), (scattered, scattered), (root, none), (none, deep), priorities of the two operands related as left entirely below right, right entirely below left, interleaved (2d against 2d+1: the seam alternates) and tied level by level. \
                  All of it on threads with {SHAPE_STACK_MB} MiB of stack: the crate's operations recurse once per level.",
@@ -2691,8 +2815,8 @@ fn main() {
     run.cov("insert_at_ties_not_predictable", TIES_NOT_PREDICTABLE.load(Ordering::Relaxed));
     run.cov("insert_at_calls_repeated", REDRAWS.load(Ordering::Relaxed));
     run.cov("insert_at_draws_uncontrolled", UNCONTROLLED_DRAWS.load(Ordering::Relaxed));
-    run.cov("rule", "BFS over states of up to 3 live treaps with at most N nodes (values in {0,1}, lazy add-1 / assign-0 tags over Z3), every action in every reached state: New at every priority rank (strictly between or tied with live levels), Merge of every ordered pair, split_at / split_by at every position, insert_at at every position and priority rank (strictly between levels: live priorities are re-spaced to the two ends of the u32 range so that any draw lands at the chosen rank; tied with a level: that level is moved onto the draw predicted by a per-thread copy of the crate's generator), remove_at, Apply of each modification at the root, first/last/collect/size/root, merge with an empty treap; parts without depth_bound run to closure; state identity = pre-order (priority rank, value, size, tag, aggregate) per treap, treaps sorted");
-    run.assume("the harness item (value, size, word aggregate, affine tag) is a lawful TreapItem; a node without children does not record a pending tag (nothing can read it)");
+    run.cov("rule", "BFS over states of up to 3 live treaps with at most N nodes (values in {0,1}; lazy tags over Z3: add 1 / assign 0, and in the parts that say so the POSITION-DEPENDENT modification 'add 1 + i to the i-th element of the subtree it is attached to' next to assign 0 — its push hands the left child the progression as it is and the right child the progression advanced by left_size + 1, so a child handed over in the wrong slot, in push or in update, changes values), every action in every reached state: New at every priority rank (strictly between or tied with live levels), Merge of every ordered pair, split_at / split_by at every position, insert_at at every position and priority rank (strictly between levels: live priorities are re-spaced to the two ends of the u32 range so that any draw lands at the chosen rank; tied with a level: that level is moved onto the draw predicted by a per-thread copy of the crate's generator), remove_at, Apply of each modification at the root, first/last/collect/size/root, merge with an empty treap; parts without depth_bound run to closure; state identity = pre-order (priority rank, value, size, left size, tag, aggregate) per treap, treaps sorted");
+    run.assume("the harness item (value, size, left size, word aggregate, pending tag x_i -> a*x_i + b + d*i with i counted from the first element of the node's own subtree) is a lawful TreapItem: the crate changes a node's children only after push() (which empties the tag) and calls update() afterwards, so a pending tag always refers to the subtree it was attached to; a node without children does not record a pending tag (nothing can read it)");
 
     if mode == Mode::C16 {
         // directed long histories, real generator: one process per case
@@ -2790,6 +2914,7 @@ fn main() {
                  (f) interleaved: appends / front insertions with operations that create no node between any two of them ({:?}: Treap::new(), merge with an empty treap, split_at+merge on a second treap, first/last/root/size on it, split_at+merge of the treap itself); \
                  (g) regrow: {REGROW_BASE} elements, then one / half / all of them removed by remove_at at the front / in the middle / at the back, then {n} appends or front insertions with no removal in between; \
                  (h) thread_ordinals: threads #0 … #{} of a process, one after another, each the next thread of the process to create a node, each builds a treap of {ORDINAL_ELEMS} elements by appends (front insertions), probed at every doubling; \
+                 NAMED WORKERS: a thread's attributes are visible to the code under test, so the worker threads of (h), (i), (j) also run carrying names given through std::thread::Builder::name — all of them one and the same name (a pool), all of them a name of their own, every second one the common name and the others none; (h) then sweeps the first {} ordinals, (i) runs chunks of c in {:?} elements built by appends for every T and every order of concatenation with the workers joined one by one or all kept alive, (j) runs in full; \
                  (i) chunks built on different threads, from a few workers to many short-lived ones: T in {:?} threads (T*c <= {}), one after another, each build a chunk of c in {:?} elements (Treap::new()+appends, Treap::new()+front insertions, or merge(t, from_item(x)) per element) as their first node creations and hand it to the collecting thread, which concatenates them with acc = merge(acc, chunk), with acc = merge(chunk, acc), or pairwise in a balanced tree of merges; three thread lifetimes: every worker started only after the previous one has exited and been joined (no two lifetimes overlap), every worker kept alive after handing over its chunk until the history ends (all lifetimes overlap; T <= {}), and the first again with 3 long-lived threads that each create one node before the first worker starts and stay alive throughout — so the shape must not depend on whether the code tells threads apart by how many came before, by how many are alive, or by a number handed back at exit; every chunk is probed, every one of the first 32 intermediate results, later ones whenever the size has doubled, and the final one; \
                  (j) roundrobin: T in {:?} live worker threads answer one request at a time with a freshly created single-node treap (worker w creates nodes w, w+T, … of the sequence), the collecting thread puts them into one treap by merge at the back, merge at the front, or split_at in the middle + two merges, {}/T nodes per worker",
                 hists.iter().filter(|h| h.in_tier(quick)).count(),
@@ -2801,7 +2926,9 @@ fn main() {
                 total / 2,
                 QUEUE_LENS,
                 QUIET_OPS,
-                Hist::Ordinals { front: false }.size(quick) - 1,
+                Hist::Ordinals { front: false, names: Names::Unnamed }.size(quick) - 1,
+                Hist::Ordinals { front: false, names: Names::Same }.size(quick),
+                NAMED_CHUNK_SIZES,
                 CHUNK_THREADS.iter().filter(|&&t| t <= chunk_limits(quick).0).collect::<Vec<_>>(),
                 chunk_limits(quick).1,
                 CHUNK_SIZES,
